@@ -10,6 +10,25 @@ import itertools
 from vf import gsx, lexemes, parsing
 from vf.runner import Check, Result, exc_sig
 
+# pumping family: opener + unit * N (+ closer).  Finds super-linear behaviour of the lexer patterns and of the
+# error reporter: one case per (opener, unit of length <= 2 over PUMP_CHARS, N, closed or not)
+PUMP_OPENERS = ['', "'", '"', '`', '@', '@@', "@'", '@`', '@"', '/*', '--', '#', '1', '1.', 'a', 'a.', '(', "x'", '$']
+PUMP_CHARS = list("a1'\"`\\ \n.@-/*_%;")
+PUMP_CLOSER = {"'": "'", '"': '"', '`': '`', "@'": "'", '@`': '`', '@"': '"', '/*': '*/', '(': ')', "x'": "'"}
+PUMP_N = (16, 64)
+
+
+def pump_texts(thorough=False):
+    units = [c for c in PUMP_CHARS] + [a + b for a in PUMP_CHARS for b in PUMP_CHARS]
+    ns = PUMP_N + ((256,) if thorough else ())
+    for op in PUMP_OPENERS:
+        for u in units:
+            for n in ns:
+                yield 'select ' + op + u * n
+                if op in PUMP_CLOSER:
+                    yield 'select ' + op + u * n + PUMP_CLOSER[op]
+
+
 CHARS = list("a1'\"`\\@#^&|!~?:;.,(){}[]+-*/%<>= \n\t") + ['\x00', 'é', '漢', '\U0001F600', '_', '$']
 
 
@@ -60,6 +79,8 @@ class CHECK(Check):
                 for tup in itertools.product(CHARS, repeat=2):
                     out.append((d, 'text', 'select ' + ''.join(tup)))
                     out.append((d, 'text', "select '" + ''.join(tup)))
+            for text in pump_texts(thorough):
+                out.append((d, 'pump', text))
             # size ladder
             for n in (10, 50, 100):
                 out.append((d, 'text', 'select ' + '(' * n + '1' + ')' * n))
@@ -99,7 +120,7 @@ class CHECK(Check):
         res = Result()
         d, kind, payload = case
         m = self.models[d]
-        if kind == 'text':
+        if kind in ('text', 'pump'):
             text = payload
         else:
             if any(t not in m.lexeme for t in payload):
@@ -122,6 +143,11 @@ class CHECK(Check):
         return res
 
     def timeout_signature(self, case):
+        if case[1] == 'pump':
+            body = case[2][len('select '):]
+            op = max((o for o in PUMP_OPENERS if body.startswith(o)), key=len)
+            unit = ''.join(sorted(set(body[len(op):len(op) + 8])))
+            return f'{case[0]}|timeout|pump|{op}|{unit!r}'
         return f'{case[0]}|timeout|{case[1]}'
 
     def coverage(self, agg):
@@ -129,12 +155,12 @@ class CHECK(Check):
         tr = sum(f.ex['edges'] for f in self.fams.values()) + sum(f.ex['edges'] for f in self.fams2.values())
         return {'exhaustive': True, 'states': st, 'transitions': tr, 'traces_validated_against_impl': agg['n'],
                 'rule': 'S0 edge+pair cover, S1 (insert/replace every terminal, delete, truncate at every abstract state), lexeme respellings, '
-                        'all token pairs, all strings of length<=3 over the character alphabet, size ladder; distinct_nontrivial = '
+                        'all token pairs, all strings of length<=3 over the character alphabet, size ladder, pumping family (19 openers x units of length<=2 over 16 characters x N in 16, 64, open and closed); distinct_nontrivial = '
                         'distinct (dialect, accepted text) or (dialect, error header, last message line)',
                 'char_alphabet': CHARS if self.tier == 'thorough' else CHARS[:30] + ['é']}
 
     def describe_case(self, case):
         d, kind, payload = case
-        if kind == 'text':
+        if kind in ('text', 'pump'):
             return {'dialect': d, 'kind': kind, 'text': payload if len(payload) < 300 else payload[:300] + '...'}
         return {'dialect': d, 'kind': kind, 'text': self.models[d].text_of(payload)}
